@@ -3,8 +3,8 @@
    (harness/cmd/banker) against the statement of BankerAuth.tla.  One line per transaction:
      {act:"Tx", label, cls, signer, fee, sends, sendsV, maxdep, run, ok, kind,
       pre:{addr->ugnot}, post:{...}, preV:{addr->vcoin}, postV:{...},
-      spends, origin, issues, deleg (changes of the vault's own authority counters),
-      storV, storM (storage change of the vault / the attacker realm in bytes)}
+      spends, origin, issues, deleg, ogrant (changes of the vault's own authority counters),
+      storV, storM, storR (storage change of the vault / the attacker realm / the router in bytes)}
    preceded by {act:"Init", bal, balV}.  A line is consumed only if
      - its recorded `pre` balances are the previous line's `post` balances (nothing moved between
        transactions), and
@@ -21,8 +21,8 @@ vars == <<l, bal, balV, grants>>
 Ln == TheTrace[l]
 Pos(x) == IF x > 0 THEN x ELSE 0
 TxOf(e) == [signer |-> e.signer, fee |-> e.fee, sends |-> e.sends, sendsV |-> e.sendsV, maxdep |-> e.maxdep, run |-> e.run,
-            locked |-> Pos(e.post.vdep - e.pre.vdep) + Pos(e.post.mdep - e.pre.mdep),
-            spends |-> e.spends, deleg |-> e.deleg, issues |-> e.issues, storV |-> e.storV, storM |-> e.storM]
+            locked |-> Pos(e.post.vdep - e.pre.vdep) + Pos(e.post.mdep - e.pre.mdep) + Pos(e.post.rdep - e.pre.rdep),
+            spends |-> e.spends, deleg |-> e.deleg, issues |-> e.issues, storV |-> e.storV, storM |-> e.storM, storR |-> e.storR, ogrant |-> e.ogrant]
 
 TraceInit ==
   /\ TheTrace[1].act = "Init"
@@ -43,7 +43,7 @@ TTx ==
   /\ l <= Len(TheTrace) /\ Ln.act = "Tx"
   /\ IF LineOK THEN TRUE ELSE TLCSet(2, Append(TLCGet(2), l))
   /\ bal' = Ln.post /\ balV' = Ln.postV
-  /\ grants' = IF Ln.ok /\ Ln.deleg > 0 THEN grants \cup {"vault"} ELSE grants
+  /\ grants' = IF Ln.ok /\ (Ln.deleg > 0 \/ Ln.ogrant > 0) THEN grants \cup {"vault"} ELSE grants
   /\ l' = l + 1
 
 \* a further Init line starts a fresh application instance (next round / resynchronisation)
